@@ -87,7 +87,7 @@ def model_from_headers_rec(name, headers):
     fields = {}
     complex_fields = defaultdict(list)
     for header in headers:
-        if RowParser.HEADER_FIELD_SEPARATOR in header:
+        if RowParser.HEADER_FIELD_SEPARATOR in get_field_name(header):
             field, subheader = header.split(RowParser.HEADER_FIELD_SEPARATOR, 1)
             complex_fields[field].append(subheader)
         else:
